@@ -1756,8 +1756,11 @@ def rule_F10(prog):
         for side in ("old", "new"):
             parts = _hunk_range_parts(prog, fe.get(side + "_range"), lets)
             got = parts if parts is not None else origin_deep(fe.get(side + "_range"), lets)
+            pn = fn.hir["params"][0]["pat"].get("name") or "ops"       # the slice parameter, whatever it is called
+            firsts = [x.replace("ops", pn) for x in FIRST_FORMS]
+            lasts = [x.replace("ops", pn) for x in LAST_FORMS]
             ok = parts is not None and any(parts == ("%s.%s_range().start" % (a, side), "%s.%s_range().end" % (b, side))
-                                           for a in FIRST_FORMS for b in LAST_FORMS)
+                                           for a in firsts for b in lasts)
             r.instances += 1
             r.ob(ok, "UnifiedHunkHeader.%s_range = %s" % (side, got))
             if not ok:
